@@ -443,6 +443,12 @@ func (w *writer) fieldAny(tag uint16, data []byte) error {
 		return w.err
 	}
 
+	// An empty value is a copy of an absent field, there is nothing to write.
+	// Otherwise a field without bytes is inserted, and reads as the previous field.
+	if len(data) == 0 {
+		return nil
+	}
+
 	_, _, err := decode.DecodeType(data)
 	if err != nil {
 		return w.fail(err)
